@@ -1936,6 +1936,8 @@ def ref_template(st):
   T = _ref_scope(st, 0, slots)
   if not slots:
     T['items'].append(['r', _ref_slot(st, slots)])
+  while not has_placeholder(T):
+    T['items'] = [kv for kv in T['items'] if kv[0] != 'b'] + [['b', referent(st)]]
   sites = {id(node): anc for node, anc, _, _ in ref_sites(T)}
   for slot in slots:
     anc = sites[id(slot)]
